@@ -321,7 +321,12 @@ def _canon(v):
 
 def check_enumname(repo: Repo) -> List[str]:
     """Compare the checker's replacement table with genrv.tools.generate.enumname's AST."""
+    from . import inline
+    from .packed import single_defs, resolve_names
     fn = repo.func("genrv.tools.generate", "enumname")
+    # the function as it reads with its loops over constant tables unrolled and one-use locals written out
+    fn = inline.normalize(repo, None, fn, sf=repo.module("genrv.tools.generate"))
+    defs = single_defs(fn)
     reps = []
     problems = []
     has_lower = has_digit_prefix = has_strip_underscore = has_collapse = False
@@ -331,6 +336,7 @@ def check_enumname(repo: Repo) -> List[str]:
                 try:
                     a, b = ast.literal_eval(node.args[0]), ast.literal_eval(node.args[1])
                 except Exception:
+                    problems.append(f"?replacement with operands that are not visible constants: {norm(node)}")
                     continue
                 if (a, b) == ("__", "_"):
                     has_collapse = True
@@ -340,7 +346,7 @@ def check_enumname(repo: Repo) -> List[str]:
                 has_lower = True
             elif node.func.attr == "isdigit":
                 has_digit_prefix = True
-        if isinstance(node, ast.Compare) and norm(node) == "ekey[0] == '_'":
+        if isinstance(node, ast.Compare) and norm(resolve_names(node, defs)) == "ekey[0] == '_'":
             has_strip_underscore = True
     if reps != ENUMNAME_REPLACEMENTS:
         problems.append(f"replacement table differs: generator {reps} vs checker {ENUMNAME_REPLACEMENTS}")
